@@ -108,7 +108,7 @@ class PlayerDriver(MachineDriver):
         self.varlog_mark = len(self.varlog)
         self.turn_op = False
         self.tick_before = g.player["gm_tm_tick"] if g and g.player else None
-        if k in PROGRESS:
+        if k in PROGRESS or (self.focus and k in self.focus):
             if g and g.player and m.modes["gm"].active:
                 if k == "tm_start":
                     self.tm_running = True
@@ -221,6 +221,54 @@ class PlayerDriver(MachineDriver):
                 "players": {p.number: {"score": p["score"], "lives": p["lives"], "ball": p["ball"]} for p in g.player_list} if g else None}
 
 
+class LaneFocus(PlayerDriver):
+    """Lane shots with a shot group that rotates them (rotation pattern r, l): what a player's lanes show depends only on
+    what that player did - two players with the same own history of lane operations see the same lanes."""
+    focus = ["hit_la", "rot"]
+
+    def setup(self):
+        super().setup()
+        self.cur_game = self.m.game
+        self.own = {}           # player number -> tuple of lane operations applied during that player's turns
+        self.seen_lanes = {}    # own history -> (lanes, player number) first observed
+
+    def do_op(self, op):
+        g = self.m.game
+        num = g.player.number if g and g.player else None
+        active = bool(g and g.player and self.m.modes["gm"].active)
+        super().do_op(op)
+        g2 = self.m.game
+        if g2 is not self.cur_game:
+            # a new game: player numbers start again with fresh players
+            self.cur_game = g2
+            self.own = {}
+            return
+        if op[0] in self.focus and active and num is not None:
+            self.own[num] = self.own.get(num, ()) + (op[0],)
+
+    def oracle(self, choice):
+        super().oracle(choice)
+        g = self.m.game
+        if not g or not g.player or not self.m.modes["gm"].active:
+            return
+        num = g.player.number
+        hist = self.own.get(num, ())
+        lanes = tuple(self.m.shots[s].state_name for s in ("la", "lb", "lc"))
+        first = self.seen_lanes.setdefault(hist, (lanes, num))
+        if first[0] != lanes:
+            self.violate("lanes-depend-on-other-player", "player %d did %r on the lanes and sees %r, player %d did the same and saw %r" %
+                         (num, list(hist), lanes, first[1], first[0]))
+        elif first[1] != num:
+            self.stat("lane_histories_compared")
+
+    def fingerprint(self):
+        grp = self.m.shot_groups["lanes"]
+        return (super().fingerprint(), tuple(sorted(self.own.items())), tuple(sorted((k, v[0]) for k, v in self.seen_lanes.items())),
+                tuple(self.m.shots[s].state_name for s in ("la", "lb", "lc")),
+                tuple(grp.rotation_pattern) if getattr(grp, "rotation_pattern", None) is not None else None,
+                getattr(grp, "rotation_enabled", None))
+
+
 class TimerFocus(PlayerDriver):
     """Deeper search over the timer's operations only (timed pause, ticks across turns)."""
     focus = ["tm_start", "tm_pause", "tm_add"]
@@ -230,7 +278,8 @@ def body(ctx):
     quick = ctx.tier == "quick"
     states = trans = 0
     levels = {}
-    for name, drv, depth in (("all", PlayerDriver, 6 if quick else 7), ("timer", TimerFocus, 9 if quick else 11)):
+    for name, drv, depth in (("all", PlayerDriver, 6 if quick else 7), ("timer", TimerFocus, 9 if quick else 11),
+                             ("lanes", LaneFocus, 10 if quick else 12)):
         res = bfs(drv, depth, observe=True)
         states += res.states
         trans += res.transitions
@@ -245,12 +294,13 @@ def body(ctx):
     ctx.assume("3 players x 2 balls, fake game; one game mode with persisted counter/accrual, shot with 3-state profile, "
                "achievement (restart/enable on next ball configured), timer, variable_player; timer ticks are checked for "
                "isolation only (the timer restarts from its start value with the mode)",
-               "BFS depth 6 (quick) / 7 (thorough) over all operations plus depth 9 / 11 over the timer operations only")
+               "BFS depth 6 (quick) / 7 (thorough) over all operations plus depth 9 / 11 over the timer operations only and depth 10 / 12 over "
+               "lane shots rotated by a shot group (same own history => same lanes for every player)")
     return ("progress_with_other_players", "drains", "var_events_checked", "restorations_checked", "first_balls_checked")
 
 
 def replay(ctx, data):
-    d = (TimerFocus if data["replay"].get("search") == "timer" else PlayerDriver)()
+    d = {"timer": TimerFocus, "lanes": LaneFocus}.get(data["replay"].get("search"), PlayerDriver)()
     d.boot()
     for c in data["replay"]["history"]:
         d.step(c)
